@@ -11,6 +11,7 @@ area = "message"
 driver = "drv_message"
 cxx = False
 fixed_lines = 1
+link_extra = ("-Wl,--wrap=malloc",)
 rule = ("scripts = 'm frags <hex>,<hex>,..' (every fragment its own exact-size malloc block) followed by message ops; "
         "stream 1 (exhaustive) = every byte string over {20,61,00,22,23} up to length 3 x EVERY composition "
         "into fragments x every insertion of up to 2 empty fragments (thorough: also length 4 x every composition x at most "
@@ -27,8 +28,8 @@ rule = ("scripts = 'm frags <hex>,<hex>,..' (every fragment its own exact-size m
 assumptions = [
     "libc memchr/memcpy/strlen/isspace/isgraph (C locale) behave as specified",
     "fragment lengths sum to less than SSIZE_MAX (the EOVERFLOW branches are not modelled)",
-    "mpt_array_append/mpt_array_slice/mpt_array_clone behave as a plain growing byte vector and allocation never fails "
-    "(array semantics are property C04)",
+    "mpt_array_append/mpt_array_slice/mpt_array_clone behave as a plain growing byte vector (array semantics are property C04); "
+    "allocation failure is exercised only for the one allocation of mpt_array_message ('m args <sep> nomem', malloc wrapped)",
     "mpt_memcpy is called with at least one source and one target fragment (with none it returns 0 for every length)",
 ]
 trusted = ["hand-written model MptModel/Impl/Message.lean tied to mptcore/message/*.c, array/array_message.c by harness/drv_message.c",
@@ -117,7 +118,7 @@ def groups(frags, n):
         av += [f, "m argv " + s, "m read 1", "m argv " + s, "m len", f, "m args " + s]
     # the white-space separator (quote scanner) gets scripts of its own
     return [("s", search), ("t", tok), ("c", cpy), ("r", rd), ("a", av),
-            ("a20", [f, "m argv 20", "m read 1", "m argv 20", "m len"]), ("A20", [f, "m args 20"])]
+            ("a20", [f, "m argv 20", "m read 1", "m argv 20", "m len"]), ("A20", [f, "m args 20", "m args 20 nomem", "m args 00 nomem"])]
 
 
 def all_strings(n):
@@ -178,7 +179,8 @@ def _scripts(tier, seed, scale=1):
                 ops = []
                 for pos in range(0, ln + 2):
                     for take in range(0, ln + 2):
-                        ops += ["m qget %d %d %s %d %d" % (mx, off, fill, pos, take), "m len", "m append 7a", "m read 1", "m chr 62"]
+                        ops += ["m qget %d %d %s %d %d" % (mx, off, fill, pos, take), "m len", "m append 7a", "m read 1", "m chr 62",
+                                "m qget %d %d %s %d %d novec" % (mx, off, fill, pos, take), "m len"]
                 out.append(("qget:%d/%d/%d" % (mx, off, ln), ops))
     # random structured histories
     r = gen.rng(id, tier, seed, "random")
